@@ -251,6 +251,27 @@ func (w *World) fetch(nd *Node, hash hotstuff.Hash) (*hotstuff.Block, bool) {
 	return hotstuffpb.BlockFromProto(pb), true
 }
 
+// fetchable reports, without drawing anything or touching any replica, that a block fetch issued by nd at this
+// instant is certain to succeed: no fetch failures are being injected and an honest, running, reachable peer holds
+// the block (the quorum function picks any reply with the requested hash, so lying peers cannot spoil it).
+func (w *World) fetchable(nd *Node, hash hotstuff.Hash) bool {
+	if w.plan.FetchFail > 0 && !w.syncPhaseFor(nd) {
+		return false
+	}
+	for _, peer := range w.nodes {
+		if peer == nd || peer.id == nd.id || !peer.honest || peer.crashed || peer.pausedUntil > w.now() {
+			continue
+		}
+		if !(w.syncPhaseFor(nd) && w.syncPhaseFor(peer)) && !w.net.connected(nd.addr, peer.addr, w.now()) {
+			continue
+		}
+		if _, ok := peer.bc.LocalGet(hash); ok {
+			return true
+		}
+	}
+	return false
+}
+
 func peerCtx(ctx context.Context, id hotstuff.ID) context.Context {
 	ctx = peer.NewContext(ctx, &peer.Peer{})
 	return metadata.NewIncomingContext(ctx, metadata.Pairs("id", strconv.Itoa(int(id))))
